@@ -82,6 +82,8 @@ class LocalCallModel(Model):
         parts = d.split(".")
         if d in ("queue.Queue",):
             return self.construct(st, "Queue", node)
+        if d.endswith("_sedpack_rs.RustIter"):
+            return self.construct(st, "RustIter", node)
         # Class.staticmethod(...) / module.function(...)
         if len(parts) >= 2 and parts[-2] in reg.classes:
             fc = reg.find_method(parts[-2], parts[-1])
@@ -300,6 +302,13 @@ class ValueClassModel(Model):
         return NotImplemented
 
     def isinstance_of(self, st, v, clsnode, line):
+        if isinstance(clsnode, ast.Name) and clsnode.id == "int":
+            if isinstance(v, (VInt, VBool)):
+                return VBool(True)
+            if isinstance(v, VOpt) and isinstance(v.val, (VInt, VBool)):
+                return VBool(z3.Not(v.isnone))
+            if isinstance(v, VNone):
+                return VBool(False)
         if isinstance(clsnode, ast.Name) and clsnode.id in self.value_classes():
             if isinstance(v, VU):
                 return VBool(self.isa(clsnode.id)(v.t))
@@ -452,8 +461,8 @@ ALL = ALL + [ValueClassModel, ItertoolsModel, ComprehensionModel]
 
 
 def _late():
-    from .streams import StreamModel
-    return [StreamModel]
+    from .streams import StreamModel, TFModel
+    return [TFModel, StreamModel]
 
 
 # ---------------------------------------------------------------------------
